@@ -245,7 +245,7 @@ def generate(seed, tier="quick"):
     if tier == "thorough":
         lat = lattice()
         if i < len(lat):
-            return {"config": lat[i], "lattice_index": i}
+            return {"config": lat[i], "lattice_index": i, "lattice_size": len(lat)}
     if rng.random() < 0.75:
         lat = lattice()
         if rng.random() < 0.5:
@@ -351,6 +351,9 @@ def execute(case, ctx):
           f"|env={'ci' if cfg.get('ci') else ''}{'+pycharm' if cfg.get('pycharm') else ''}{'xdist' if cfg.get('xdist') else ''}{'xfail' if cfg.get('xfail_all') else ''}{'tty' if cfg.get('tty') else ''}" \
           f"|ans={'+'.join(sorted(k for k, v in (cfg.get('answers') or {}).items() if v))}|{'gen' if case.get('program') else cfg.get('project')}"
     ctx.count("clauses_checked")
+    if case.get("lattice_index") is not None:
+        ctx.count("lattice_points_enumerated")  # thorough tier: equals lattice_size when the fixed-project lattice was swept completely
+        ctx.stats["lattice_size"] = case["lattice_size"]
     got = judged_tree(new)
     orig = judged_tree(files)
 
